@@ -40,10 +40,12 @@ Definition meets (s : sem) (sz : size) (f : bool) (d : canv) : Prop :=
   | SFixed => m_pack s SFixed f = Ok (cc d, cr d)
   end /\ rect d = true /\ inside d.
 
-(* the box and flow part of the contract, plus what containers need to know about rows()/pack() *)
-Record Good (s : sem) : Prop := mkGood {
+(* the box and flow part of the contract, plus what containers need to know about rows()/pack().
+   [n] is the least number of rows a flow rendering has: 1 for every bundled leaf, 0 once empty
+   containers (Pile([])) are in scope. *)
+Record GoodN (n : Z) (s : sem) : Prop := mkGood {
   g_rows : forall c f, s_flow (m_sizing s) = true -> 1 <= c ->
-           match m_rows s c f with Ok h => 1 <= h | Err e => soft e end;
+           match m_rows s c f with Ok h => n <= h | Err e => soft e end;
   g_pack : forall c f, s_flow (m_sizing s) = true -> 1 <= c ->
            match m_rows s c f with
            | Ok h => exists w, 0 <= w /\ m_pack s (SFlow c) f = Ok (w, h)
@@ -58,6 +60,26 @@ Record Good (s : sem) : Prop := mkGood {
   g_deg_pack : forall c f, c <= 0 -> m_pack s (SFlow c) f = Err EStarved;
   g_deg_render : forall sz f, degenerate sz = true -> m_render s sz f = Err EStarved
 }.
+Arguments g_rows {n} s _.
+Arguments g_pack {n} s _.
+Arguments g_flow {n} s _.
+Arguments g_box {n} s _.
+Arguments g_deg_rows {n} s _.
+Arguments g_deg_pack {n} s _.
+Arguments g_deg_render {n} s _.
+Notation Good := (GoodN 1).
+
+Lemma good_weaken n m s : m <= n -> GoodN n s -> GoodN m s.
+Proof.
+  intros H G. constructor.
+  - intros c f Hs Hc. pose proof (g_rows s G c f Hs Hc) as R. destruct (m_rows s c f); [lia|exact R].
+  - apply (g_pack s G).
+  - apply (g_flow s G).
+  - apply (g_box s G).
+  - apply (g_deg_rows s G).
+  - apply (g_deg_pack s G).
+  - apply (g_deg_render s G).
+Qed.
 
 (* ------------------------------------------------------------------ small tactics *)
 Ltac dif :=
@@ -198,8 +220,8 @@ Proof.
 Qed.
 
 (* ------------------------------------------------------------------ nodes built with mk_node *)
-Lemma mk_node_good sz rows pf render :
-  (forall c f, s_flow sz = true -> 1 <= c -> match rows c f with Ok h => 1 <= h | Err e => soft e end) ->
+Lemma mk_node_good n sz rows pf render :
+  (forall c f, s_flow sz = true -> 1 <= c -> match rows c f with Ok h => n <= h | Err e => soft e end) ->
   (forall c f, s_flow sz = true -> 1 <= c ->
      match render (SFlow c) f with
      | Ok d => cc d = c /\ (rows c f = Ok (cr d) /\ rect d = true /\ inside d)
@@ -208,7 +230,7 @@ Lemma mk_node_good sz rows pf render :
      match render (SBox c r) f with
      | Ok d => cc d = c /\ cr d = r /\ (rect d = true /\ inside d)
      | Err e => soft e end) ->
-  Good (mk_node sz rows pf render).
+  GoodN n (mk_node sz rows pf render).
 Proof.
   intros Hrows Hflow Hbox. constructor; cbn [mk_node m_sizing m_rows m_pack m_render].
   - intros c f Hs Hc. rewrite wrap_rows_valid by lia. apply Hrows; auto.
@@ -229,7 +251,7 @@ Proof.
 Qed.
 
 (* ------------------------------------------------------------------ AttrMap / LineBox delegation *)
-Lemma attr_good s : Good s -> Good (attr_sem s).
+Lemma attr_good n s : GoodN n s -> GoodN n (attr_sem s).
 Proof.
   intros G. constructor; cbn [attr_sem m_sizing m_rows m_pack m_render].
   - apply (g_rows s G).
@@ -256,10 +278,10 @@ Proof.
 Qed.
 
 (* ------------------------------------------------------------------ BoxAdapter *)
-Lemma boxadapter_good s h :
-  Good s -> s_box (m_sizing s) = true -> 1 <= h -> Good (boxadapter_sem s h).
+Lemma boxadapter_good m n s h :
+  GoodN m s -> s_box (m_sizing s) = true -> 1 <= h -> n <= 1 -> GoodN n (boxadapter_sem s h).
 Proof.
-  intros G Hb Hh. unfold boxadapter_sem. apply mk_node_good; cbn [s_flow s_box].
+  intros G Hb Hh Hn. unfold boxadapter_sem. apply mk_node_good; cbn [s_flow s_box].
   - intros; lia.
   - intros c f _ Hc. pose proof (g_box s G c h f Hb Hc Hh) as H.
     destruct (m_render s (SBox c h) f); [|exact H].
@@ -313,11 +335,11 @@ Proof.
   - destruct ((r - h - (b + k) <? 0) && (0 <? b + k)) eqn:E2; cbn; f_equal; lia.
 Qed.
 
-Lemma filler_good s va ht mh t b :
-  Good s -> filler_child_ok (m_sizing s) ht = true -> 0 <= t -> 0 <= b ->
-  Good (filler_sem s va ht mh t b).
+Lemma filler_good nn s va ht mh t b :
+  GoodN nn s -> nn <= 1 -> filler_child_ok (m_sizing s) ht = true -> 0 <= t -> 0 <= b ->
+  GoodN nn (filler_sem s va ht mh t b).
 Proof.
-  intros G Hok Ht Hb. unfold filler_sem. apply mk_node_good.
+  intros G Hn1 Hok Ht Hb. unfold filler_sem. apply mk_node_good.
   - (* rows *)
     intros c f Hs Hc. unfold filler_rows. destruct ht as [n| |pct]; cbn in *.
     + lia.
@@ -425,8 +447,8 @@ Qed.
 Definition not_clip (wt : wtype) : Prop := wt <> WClip.
 
 (* padding_values on a non-empty size: soft error or non-negative paddings *)
-Lemma padding_values_ok s align wt mw l r sz f :
-  Good s -> wt <> WClip -> padding_child_ok (m_sizing s) wt = true ->
+Lemma padding_values_ok nn s align wt mw l r sz f :
+  GoodN nn s -> wt <> WClip -> padding_child_ok (m_sizing s) wt = true ->
   (forall c rr, sz = SBox c rr -> wt = WPack -> s_flow (m_sizing s) = true) ->
   (forall c, sz = SFlow c -> wt = WPack -> s_flow (m_sizing s) = true) ->
   sz <> SFixed ->
@@ -468,6 +490,8 @@ Proof.
          destruct (clrp a b c d e f g); cbn in *; auto end).
 Qed.
 
+Arguments padding_values_ok {nn}.
+
 Lemma padding_sizing_flow cs wt :
   wt <> WClip -> s_flow (padding_sizing cs wt) = true -> s_flow cs = true.
 Proof.
@@ -488,8 +512,8 @@ Definition pad_child_rows (s : sem) (wt : wtype) (w : Z) (f : bool) : res Z :=
   | _ => m_rows s w f
   end.
 
-Lemma pad_child_rows_spec s wt w f :
-  Good s -> s_flow (m_sizing s) = true ->
+Lemma pad_child_rows_spec n s wt w f :
+  GoodN n s -> s_flow (m_sizing s) = true ->
   match m_rows s w f with
   | Ok h => pad_child_rows s wt w f = Ok h
   | Err e => pad_child_rows s wt w f = Err e
@@ -503,9 +527,11 @@ Proof.
     + rewrite P. reflexivity.
 Qed.
 
-Lemma padding_good s align wt mw l r :
-  Good s -> wt <> WClip -> padding_child_ok (m_sizing s) wt = true -> 0 <= l -> 0 <= r ->
-  Good (padding_sem s align wt mw l r).
+Arguments pad_child_rows_spec {n}.
+
+Lemma padding_good nn s align wt mw l r :
+  GoodN nn s -> wt <> WClip -> padding_child_ok (m_sizing s) wt = true -> 0 <= l -> 0 <= r ->
+  GoodN nn (padding_sem s align wt mw l r).
 Proof.
   intros G Hw Hok Hl Hr. unfold padding_sem. apply mk_node_good.
   - (* rows *)
@@ -514,7 +540,7 @@ Proof.
     pose proof (padding_values_ok s align wt mw l r (SFlow c) f G Hw Hok
                   ltac:(intros; discriminate) ltac:(intros; exact Hs) ltac:(discriminate)) as V.
     destruct (padding_values s align wt mw l r (SFlow c) f) as [[L R]|e]; cbn; [|exact V].
-    assert (Q : match pad_child_rows s wt (c - L - R) f with Ok h => 1 <= h | Err e => soft e end).
+    assert (Q : match pad_child_rows s wt (c - L - R) f with Ok h => nn <= h | Err e => soft e end).
     { pose proof (pad_child_rows_spec s wt (c - L - R) f G Hs) as S.
       destruct (Z_le_gt_dec (c - L - R) 0) as [Hz|Hz].
       - rewrite (g_deg_rows s G _ f Hz) in S. rewrite S. auto.
@@ -586,7 +612,8 @@ Qed.
 Definition pile_ok (ps : sizing) (it : pitem) : Prop :=
   pile_child_ok ps (m_sizing (pi_sem it)) (pi_kind it) (pi_amount it) = true.
 
-Definition pgood (it : pitem) : Prop := Good (pi_sem it).
+Definition pgoodN (n : Z) (it : pitem) : Prop := GoodN n (pi_sem it).
+Notation pgood := (pgoodN 1).
 
 (* the render size of an item of a flow pile *)
 Definition flow_entry_size (c : Z) (it : pitem) : size :=
@@ -597,19 +624,19 @@ Fixpoint flow_sizes (c : Z) (l : list pitem) (hs : list Z) : list (Z * size) :=
   | _, _ => []
   end.
 
-Lemma pile_flow_sizes all c f fp ps :
-  1 <= c -> s_flow ps = true ->
-  forall l i ir, Forall pgood l -> Forall (pile_ok ps) l ->
+Lemma pile_flow_sizes n all c f fp ps :
+  n <= 1 -> 1 <= c -> s_flow ps = true ->
+  forall l i ir, Forall (pgoodN n) l -> Forall (pile_ok ps) l ->
   match pile_item_rows_flow l c f fp i with
   | Ok hs => pile_rows_sizes all l (SFlow c) c f fp i ir = Ok (flow_sizes c l hs)
-             /\ Forall (fun h => 1 <= h) hs /\ length hs = length l
+             /\ Forall (fun h => n <= h) hs /\ length hs = length l
   | Err e => soft e /\ pile_rows_sizes all l (SFlow c) c f fp i ir = Err e
   end.
 Proof.
-  intros Hc Hps. induction l as [|it l IH]; intros i ir HG HO; cbn [pile_item_rows_flow pile_rows_sizes].
+  intros Hn1 Hc Hps. induction l as [|it l IH]; intros i ir HG HO; cbn [pile_item_rows_flow pile_rows_sizes].
   - cbn. auto.
   - inversion HG as [|? ? G HG']; subst. inversion HO as [|? ? O HO']; subst.
-    unfold pgood in G. unfold pile_ok, pile_child_ok in O.
+    unfold pgoodN in G. unfold pile_ok, pile_child_ok in O.
     specialize (IH (i + 1) ir HG' HO').
     destruct (pi_kind it) eqn:K.
     + (* given *)
@@ -644,21 +671,20 @@ Proof.
       * rewrite P. cbn. auto.
 Qed.
 
-Lemma pile_flow_render c f fp ps :
-  1 <= c -> s_flow ps = true ->
-  forall l i hs, Forall pgood l -> Forall (pile_ok ps) l ->
+Lemma pile_flow_render n c f fp ps :
+  0 <= n -> 1 <= c -> s_flow ps = true ->
+  forall l i hs, Forall (pgoodN n) l -> Forall (pile_ok ps) l ->
   pile_item_rows_flow l c f fp i = Ok hs ->
   match pile_render_items l (flow_sizes c l hs) f fp i with
   | Ok cvs => all_width c cvs
               /\ fold_right (fun d a => cr d + a) 0 cvs = fold_right Z.add 0 hs
-              /\ length cvs = length l
   | Err e => soft e
   end.
 Proof.
-  intros Hc Hps. induction l as [|it l IH]; intros i hs HG HO E.
+  intros Hn0 Hc Hps. induction l as [|it l IH]; intros i hs HG HO E.
   - cbn in E. inversion E; subst. cbn. repeat split; auto. constructor.
   - inversion HG as [|? ? G HG']; subst. inversion HO as [|? ? O HO']; subst.
-    unfold pgood in G. unfold pile_ok, pile_child_ok in O.
+    unfold pgoodN in G. unfold pile_ok, pile_child_ok in O.
     cbn [pile_item_rows_flow] in E.
     (* split the bind *)
     match type of E with (let* h := ?m in _) = _ => destruct m as [h|e] eqn:Eh; cbn in E; [|discriminate] end.
@@ -666,37 +692,41 @@ Proof.
     inversion E; subst hs. clear E.
     specialize (IH (i + 1) hr HG' HO' Er).
     cbn [flow_sizes pile_render_items].
-    assert (H1 : 1 <= h /\
+    assert (H1 : 0 <= h /\ (1 <= h ->
                  match m_render (pi_sem it) (flow_entry_size c it) (item_focus f fp i) with
                  | Ok d => cc d = c /\ cr d = h /\ rect d = true /\ inside d
-                 | Err e => soft e end).
+                 | Err e => soft e end)).
     { unfold flow_entry_size. destruct (pi_kind it) eqn:K.
-      - inversion Eh; subst h. assert (1 <= pi_amount it) by lia. split; [lia|].
+      - inversion Eh; subst h. assert (1 <= pi_amount it) by lia. split; [lia|]. intros _.
         assert (Hb : s_box (m_sizing (pi_sem it)) = true) by lia.
         pose proof (g_box _ G c (pi_amount it) (item_focus f fp i) Hb Hc ltac:(lia)) as B.
         destruct (m_render (pi_sem it) (SBox c (pi_amount it)) (item_focus f fp i)); [|exact B].
         destruct B as [[B1 B2] [B3 B4]]. auto.
       - assert (Hfl : s_flow (m_sizing (pi_sem it)) = true) by exact O.
         rewrite Hfl in Eh.
-        pose proof (g_rows _ G c (item_focus f fp i) Hfl Hc) as R. rewrite Eh in R. split; [lia|].
+        pose proof (g_rows _ G c (item_focus f fp i) Hfl Hc) as R. rewrite Eh in R. split; [lia|]. intros _.
         pose proof (g_flow _ G c (item_focus f fp i) Hfl Hc) as F.
         destruct (m_render (pi_sem it) (SFlow c) (item_focus f fp i)); [|exact F].
         destruct F as [[F1 F2] [F3 F4]]. rewrite Eh in F2. inversion F2. auto.
       - assert (Hfl : s_flow (m_sizing (pi_sem it)) = true).
         { unfold impb in O. rewrite Hps in O. cbn in O. lia. }
         rewrite Hfl in Eh.
-        pose proof (g_rows _ G c (item_focus f fp i) Hfl Hc) as R. rewrite Eh in R. split; [lia|].
+        pose proof (g_rows _ G c (item_focus f fp i) Hfl Hc) as R. rewrite Eh in R. split; [lia|]. intros _.
         pose proof (g_flow _ G c (item_focus f fp i) Hfl Hc) as F.
         destruct (m_render (pi_sem it) (SFlow c) (item_focus f fp i)); [|exact F].
         destruct F as [[F1 F2] [F3 F4]]. rewrite Eh in F2. inversion F2. auto. }
-    destruct H1 as [Hh Hr]. replace (0 <? h) with true by lia.
-    destruct (m_render (pi_sem it) (flow_entry_size c it) (item_focus f fp i)) as [d|e]; cbn; [|exact Hr].
-    destruct (pile_render_items l (flow_sizes c l hr) f fp (i + 1)) as [cvs|e]; cbn; [|exact IH].
-    destruct IH as [A [B C]]. destruct Hr as [R1 [R2 [R3 R4]]].
-    repeat split.
-    + constructor; auto. repeat split; auto. lia.
-    + lia.
-    + lia.
+    destruct H1 as [Hh Hr].
+    destruct (0 <? h) eqn:E0.
+    + specialize (Hr ltac:(lia)).
+      destruct (m_render (pi_sem it) (flow_entry_size c it) (item_focus f fp i)) as [d|e]; cbn; [|exact Hr].
+      destruct (pile_render_items l (flow_sizes c l hr) f fp (i + 1)) as [cvs|e]; cbn; [|exact IH].
+      destruct IH as [A B]. destruct Hr as [R1 [R2 [R3 R4]]].
+      split.
+      * constructor; auto. repeat split; auto. lia.
+      * lia.
+    + (* a child without rows is not rendered *)
+      destruct (pile_render_items l (flow_sizes c l hr) f fp (i + 1)) as [cvs|e]; [|exact IH].
+      destruct IH as [A B]. split; [exact A|]. cbn [fold_right]. lia.
 Qed.
 
 (* box pile: the entries computed by get_rows_sizes ask every item for something it supports *)
@@ -704,9 +734,9 @@ Definition entry_ok (c : Z) (it : pitem) (e : Z * size) : Prop :=
   (snd e = SFlow c /\ s_flow (m_sizing (pi_sem it)) = true)
   \/ (snd e = SBox c (fst e) /\ s_box (m_sizing (pi_sem it)) = true).
 
-Lemma pile_pass1_ok c f fp ps :
+Lemma pile_pass1_ok n c f fp ps :
   1 <= c -> s_box ps = true ->
-  forall l i rem wt, Forall pgood l -> Forall (pile_ok ps) l -> 0 <= wt ->
+  forall l i rem wt, Forall (pgoodN n) l -> Forall (pile_ok ps) l -> 0 <= wt ->
   match pile_box_pass1 l c f fp i rem wt with
   | Ok (hs, rem', wt') => wt <= wt' /\ (Exists (fun it => pi_kind it = KWeight) l -> wt < wt')
   | Err e => soft e
@@ -715,7 +745,7 @@ Proof.
   intros Hc Hps. induction l as [|it l IH]; intros i rem wt HG HO Hwt; cbn [pile_box_pass1].
   - split; [lia|]. intros X. inversion X.
   - inversion HG as [|? ? G HG']; subst. inversion HO as [|? ? O HO']; subst.
-    unfold pgood in G. unfold pile_ok, pile_child_ok in O.
+    unfold pgoodN in G. unfold pile_ok, pile_child_ok in O.
     destruct (pi_kind it) eqn:K.
     + specialize (IH (i + 1) (rem - pi_amount it) wt HG' HO' Hwt).
       destruct (pile_box_pass1 l c f fp (i + 1) (rem - pi_amount it) wt) as [[[hs r'] w']|e]; cbn; [|exact IH].
@@ -734,19 +764,19 @@ Proof.
       destruct IH as [A B]. split; lia.
 Qed.
 
-Lemma pile_item_rows_box_ok c r f fp ps l :
-  1 <= c -> s_box ps = true -> Forall pgood l -> Forall (pile_ok ps) l ->
+Lemma pile_item_rows_box_ok n c r f fp ps l :
+  1 <= c -> s_box ps = true -> Forall (pgoodN n) l -> Forall (pile_ok ps) l ->
   Exists (fun it => pi_kind it = KWeight) l ->
   match pile_item_rows_box l c r f fp with Ok _ => True | Err e => soft e end.
 Proof.
   intros Hc Hps HG HO HX. unfold pile_item_rows_box.
-  pose proof (pile_pass1_ok c f fp ps Hc Hps l 0 r 0 HG HO ltac:(lia)) as P.
+  pose proof (pile_pass1_ok n c f fp ps Hc Hps l 0 r 0 HG HO ltac:(lia)) as P.
   destruct (pile_box_pass1 l c f fp 0 r 0) as [[[hs rem] wt]|e]; cbn; [|exact P].
   destruct P as [A B]. specialize (B HX). replace (wt =? 0) with false by lia. exact I.
 Qed.
 
-Lemma pile_box_sizes all c r f fp ps :
-  1 <= c -> 1 <= r -> s_box ps = true -> Forall pgood all -> Forall (pile_ok ps) all ->
+Lemma pile_box_sizes n all c r f fp ps :
+  1 <= c -> 1 <= r -> s_box ps = true -> Forall (pgoodN n) all -> Forall (pile_ok ps) all ->
   forall l i ir, (forall it, In it l -> In it all) ->
   match pile_rows_sizes all l (SBox c r) c f fp i ir with
   | Ok es => Forall2 (entry_ok c) l es
@@ -759,7 +789,7 @@ Proof.
     assert (Hin' : forall x, In x l -> In x all) by (intros; apply Hin; right; auto).
     pose proof (proj1 (Forall_forall _ _) HGa it Hit) as G.
     pose proof (proj1 (Forall_forall _ _) HOa it Hit) as O.
-    unfold pgood in G. unfold pile_ok, pile_child_ok in O.
+    unfold pgoodN in G. unfold pile_ok, pile_child_ok in O.
     destruct (pi_kind it) eqn:K.
     + specialize (IH (i + 1) ir Hin').
       destruct (pile_rows_sizes all l (SBox c r) c f fp (i + 1) ir) as [es|e]; cbn; [|exact IH].
@@ -779,7 +809,7 @@ Proof.
       { apply Exists_exists. exists it. auto. }
       assert (Q : match (match ir with Some ir0 => Ok ir0 | None => pile_item_rows all (SBox c r) f fp end) with
                   | Ok _ => True | Err e => soft e end).
-      { destruct ir; [exact I|]. cbn. apply (pile_item_rows_box_ok c r f fp ps all); auto. }
+      { destruct ir; [exact I|]. cbn. apply (pile_item_rows_box_ok n c r f fp ps all); auto. }
       destruct (match ir with Some ir0 => Ok ir0 | None => pile_item_rows all (SBox c r) f fp end) as [ir1|e]; cbn; [|exact Q].
       specialize (IH (i + 1) (Some ir1) Hin').
       destruct (pile_rows_sizes all l (SBox c r) c f fp (i + 1) (Some ir1)) as [es|e]; cbn; [|exact IH].
@@ -787,18 +817,18 @@ Proof.
       unfold impb in O. rewrite Hps in O. cbn in O. lia.
 Qed.
 
-Lemma pile_box_render c f fp :
-  1 <= c ->
-  forall l es i, Forall pgood l -> Forall2 (entry_ok c) l es ->
+Lemma pile_box_render n c f fp :
+  0 <= n -> 1 <= c ->
+  forall l es i, Forall (pgoodN n) l -> Forall2 (entry_ok c) l es ->
   match pile_render_items l es f fp i with
   | Ok cvs => all_width c cvs /\ Forall (fun d => 0 <= cr d) cvs
   | Err e => soft e
   end.
 Proof.
-  intros Hc. induction l as [|it l IH]; intros es i HG HE.
+  intros Hn0 Hc. induction l as [|it l IH]; intros es i HG HE.
   - inversion HE; subst. cbn. split; constructor.
   - inversion HE as [|? [h sz] ? es' E1 HE']; subst. inversion HG as [|? ? G HG']; subst.
-    unfold pgood in G. cbn [pile_render_items].
+    unfold pgoodN in G. cbn [pile_render_items].
     specialize (IH es' (i + 1) HG' HE').
     destruct (0 <? h) eqn:Hh; [|exact IH].
     assert (R : match m_render (pi_sem it) sz (item_focus f fp i) with
@@ -820,37 +850,41 @@ Qed.
 Lemma sum_cr_nonneg cvs : Forall (fun d => 0 <= cr d) cvs -> 0 <= fold_right (fun d a => cr d + a) 0 cvs.
 Proof. induction 1; cbn; lia. Qed.
 
-Lemma pile_good l fp :
-  l <> [] -> Forall pgood l -> Forall (pile_ok (pile_sizing l)) l -> Good (pile_sem l fp).
+Lemma pile_good n l fp :
+  0 <= n <= 1 -> (n = 1 -> l <> []) ->
+  Forall (pgoodN n) l -> Forall (pile_ok (pile_sizing l)) l -> GoodN n (pile_sem l fp).
 Proof.
-  intros Hne HG HO. unfold pile_sem. apply mk_node_good.
+  intros Hn Hne HG HO. unfold pile_sem. apply mk_node_good.
   - (* rows *)
     intros c f Hs Hc. unfold pile_rows.
-    pose proof (pile_flow_sizes l c f fp (pile_sizing l) Hc Hs l 0 None HG HO) as S.
+    pose proof (pile_flow_sizes n l c f fp (pile_sizing l) ltac:(lia) Hc Hs l 0 None HG HO) as S.
     destruct (pile_item_rows_flow l c f fp 0) as [hs|e]; cbn; [|tauto].
     destruct S as [_ [B C]]. rewrite sumz_fold.
-    destruct hs as [|h hs]; [destruct l; [congruence|discriminate]|].
+    assert (N0 : 0 <= fold_right Z.add 0 hs).
+    { clear -B Hn. induction B; cbn; lia. }
+    destruct (Z.eq_dec n 1) as [E1|E1]; [|lia].
+    destruct hs as [|h hs]; [destruct l; [specialize (Hne E1); congruence|discriminate]|].
     inversion B; subst. cbn.
     assert (0 <= fold_right Z.add 0 hs).
-    { clear - H2. induction H2; cbn; lia. }
+    { clear -H2. induction H2; cbn; lia. }
     lia.
   - (* flow *)
     intros c f Hs Hc. unfold pile_render, pile_sizes, pile_rows.
-    pose proof (pile_flow_sizes l c f fp (pile_sizing l) Hc Hs l 0 None HG HO) as S.
+    pose proof (pile_flow_sizes n l c f fp (pile_sizing l) ltac:(lia) Hc Hs l 0 None HG HO) as S.
     destruct (pile_item_rows_flow l c f fp 0) as [hs|e] eqn:E; cbn.
     2:{ destruct S as [S1 S2]. rewrite S2. cbn. exact S1. }
     destruct S as [S1 [S2 S3]]. rewrite S1. cbn.
-    pose proof (pile_flow_render c f fp (pile_sizing l) Hc Hs l 0 hs HG HO E) as R.
+    pose proof (pile_flow_render n c f fp (pile_sizing l) ltac:(lia) Hc Hs l 0 hs HG HO E) as R.
     destruct (pile_render_items l (flow_sizes c l hs) f fp 0) as [cvs|e]; cbn; [|exact R].
-    destruct R as [R1 [R2 R3]].
-    destruct cvs as [|d cvs]; [destruct l; [congruence|discriminate]|].
-    destruct (combine_spec c (d :: cvs) ltac:(discriminate) R1) as [A [B [C D]]].
-    rewrite sumz_fold. fin.
+    destruct R as [R1 R2]. rewrite sumz_fold.
+    destruct cvs as [|d cvs].
+    + cbn in R2. rewrite <- R2. cbn. repeat split; auto.
+    + destruct (combine_spec c (d :: cvs) ltac:(discriminate) R1) as [A [B [C D]]]. fin.
   - (* box *)
     intros c r f Hs Hc Hr. unfold pile_render, pile_sizes.
-    pose proof (pile_box_sizes l c r f fp (pile_sizing l) Hc Hr Hs HG HO l 0 None ltac:(auto)) as S.
+    pose proof (pile_box_sizes n l c r f fp (pile_sizing l) Hc Hr Hs HG HO l 0 None ltac:(auto)) as S.
     destruct (pile_rows_sizes l l (SBox c r) c f fp 0 None) as [es|e]; cbn; [|exact S].
-    pose proof (pile_box_render c f fp Hc l es 0 HG S) as R.
+    pose proof (pile_box_render n c f fp ltac:(lia) Hc l es 0 HG S) as R.
     destruct (pile_render_items l es f fp 0) as [cvs|e]; cbn; [|exact R].
     destruct R as [R1 R2].
     destruct cvs as [|d cvs]; [cbn; repeat split; auto; exact I|].
@@ -896,8 +930,8 @@ Proof.
 Qed.
 
 (* the statement in the shape of the property text *)
-Theorem render_contract_from_good s sz f :
-  Good s -> sz <> SFixed -> valid_for (m_sizing s) sz ->
+Theorem render_contract_from_good n s sz f :
+  GoodN n s -> sz <> SFixed -> valid_for (m_sizing s) sz ->
   match m_render s sz f with Ok d => meets s sz f d | Err e => soft e end.
 Proof.
   intros G Hn Hv. destruct sz as [|c|c r]; [congruence| |].
